@@ -661,9 +661,15 @@ func (p *Parser) applyPrefixNewlines(v *lisp.LVal, newlines int, spaces int) {
 			m.BlankLinesBefore = n - 1
 		}
 	} else {
-		if newlines >= 1 {
-			m.NewlineBefore = true
-		}
+		// The prefix token measures the gap in front of this node, and it is
+		// the ONLY thing that does.  tokenLVal filled these fields in from
+		// the last token read -- for a list operand its closing bracket --
+		// so they are replaced, not merged: "(f #^(a\n))" reported a
+		// newline before the #^ form because its operand's ")" starts a
+		// line, and re-formatting the formatter's own output moved the form
+		// to a line of its own.
+		m.NewlineBefore = newlines >= 1
+		m.BlankLinesBefore = 0
 		if newlines > 1 {
 			m.BlankLinesBefore = newlines - 1
 		}
